@@ -24,7 +24,7 @@ if __name__ == '__main__':
 
 from vf import tlc                                                              # noqa: E402
 from vf.common import REPO, VERIF, MachineryError, Timer, ensure_repo_on_path, seed   # noqa: E402
-from vf.drivers.persistent_api import (_cfg as _pcfg, _sr, prefetch, _os_alive_pid, _proc_start, _tla_seq, parent_watchdog,   # noqa: E402
+from vf.drivers.persistent_api import (_cfg as _pcfg, _find_thread, _sr, prefetch, _os_alive_pid, _proc_start, _tla_seq, parent_watchdog,   # noqa: E402
                                        run_jobs)
 from vf.report import Evidence, Violation, finish                               # noqa: E402
 
@@ -131,18 +131,21 @@ class RegReplay:
                 self.restarted_later[st[1]] = n
         self.was_restarted = set()
         self.foreign = {}
+        self.names = {}          # worker name -> local id (how a worker is recognised when the program kept no handle)
+        self.unheld = {}         # local id -> OS ground truth of a worker whose handle was dropped right after construction
 
     def lid(self, obj):
         for w, o in self.ws.items():
             if o is obj:
                 return w
-        k = self.known.get(id(obj))
+        # not a handle the program holds: recognise it by its (unique) name - never by id(): addresses are re-used
+        k = self.names.get(getattr(obj, 'name', None))
         if k is not None:
             return k
         # a worker this history never created (stale entry of the process-wide registry)
         return self.foreign.setdefault(id(obj), 900 + len(self.foreign))
 
-    def create(self, w, run, pers):
+    def create(self, w, run, pers, held=True):
         ses = self.ses
         kind = self.job['kinds'].get(str(w), 'thread')
         kw = {}
@@ -157,11 +160,42 @@ class RegReplay:
             flag = os.path.join(self.tmp, 'rflag-%d-%d' % (os.getpid(), ses.nflag))
             self.flags[w] = flag
             obj = ses.cls[(kind, False)](ses.targets.sleeper, args=[flag], name=name, run=run, **kw)
-        self.ws[w] = obj
+        self.names[name] = w
+        if run and kind != 'thread':
+            self.pids.append((obj.pid, _proc_start(obj.pid)))
         if run:
             self.live.add(w)
-            if kind != 'thread':
-                self.pids.append((obj.pid, _proc_start(obj.pid)))
+        if held:
+            self.ws[w] = obj
+            return
+        # fire and forget: the program keeps no reference to the object, only what it needs to look at the OS
+        # (the child's pid and start time, or the Thread object of a thread child; a remote worker's frontend thread)
+        info = {'kind': kind, 'ref': weakref.ref(obj)}
+        if kind == 'thread':
+            info['thread'] = _find_thread(tid=obj.tid)
+        else:
+            info['pid'] = self.pids[-1]
+            if kind == 'remote':
+                info['thread'] = _find_thread(name='%s (remote front)' % name)
+        self.unheld[w] = info
+        del obj
+        gc.collect()
+
+    def os_alive(self, w):
+        """Liveness of a handle-less worker from the OS, never through the worker object."""
+        info = self.unheld[w]
+        th = info.get('thread')
+        if th is not None and th.is_alive():
+            return True
+        if 'pid' in info:
+            pid, start = info['pid']
+            return start is not None and _proc_start(pid) == start and _os_alive_pid(pid)
+        return False
+
+    def forget_unheld(self, w):
+        info = self.unheld.get(w)
+        if info is not None and info.get('ref') is not None:
+            self.ses.dead_refs.append(info.pop('ref'))
 
     def forget_if_unused(self, w, step):
         """The program drops its reference to a dead worker it will not restart."""
@@ -174,6 +208,16 @@ class RegReplay:
         del obj
 
     def die(self, w, step):
+        if w in self.unheld:            # no handle: let the target return and watch the OS
+            open(self.flags[w], 'w').close()
+            t0 = time.time()
+            while self.os_alive(w) and time.time() - t0 < 10:
+                time.sleep(0.002)
+            if self.os_alive(w):
+                self.notes.append('handle-less worker %d did not die' % w)
+            self.live.discard(w)
+            self.forget_unheld(w)
+            return
         obj = self.ws[w]
         mode = self.job.get('modes', {}).get(str(step), 'finish')
         if mode == 'terminate':
@@ -216,15 +260,17 @@ class RegReplay:
         # (autoclose gives each child 0.1 s + 0.1 s; under load a dying thread can outlive that by a moment)
         after = []
         for w in sorted(self.live):
+            alive = (lambda w=w: self.os_alive(w)) if w in self.unheld else self.ws[w].is_alive
             t0 = time.time()
-            while self.ws[w].is_alive() and time.time() - t0 < 3.0:
+            while alive() and time.time() - t0 < 3.0:
                 time.sleep(0.002)
-            if self.ws[w].is_alive():
+            if alive():
                 after.append(w)
         self.autos.append({'after': after, 'raised': raised})
         for w in sorted(self.live):
             if w not in after:
                 self.live.discard(w)
+                self.forget_unheld(w)
                 self.forget_if_unused(w, step)
 
     def body(self):
@@ -233,7 +279,7 @@ class RegReplay:
                 op, w = st[0], st[1]
                 self.current = 'step %d %s %s' % (n, op, w)
                 if op == 'create':
-                    self.create(w, st[2] == 'run', st[3] == 'pers')
+                    self.create(w, st[2] == 'run', st[3] == 'pers', held=(st[3] != 'once-unheld'))
                 elif op == 'die':
                     self.die(w, n)
                 elif op == 'restart':
@@ -266,6 +312,11 @@ class RegReplay:
             try:
                 if obj is not None and not obj.wait(2):
                     obj.terminate()
+                if w in self.unheld:
+                    t0 = time.time()
+                    while self.os_alive(w) and time.time() - t0 < 2:
+                        time.sleep(0.002)
+                    self.forget_unheld(w)
             except Exception as e:  # noqa
                 self.notes.append('cleanup of %d: %r' % (w, e))
         for pid, start in self.pids:
@@ -607,7 +658,10 @@ def run(prop, tier, replay=None):
     prefetch('RegistryMC', [(w, _cfg('Registry_mc.cfg', inv=[w])) for w in ('W_NoPrune', 'W_NoRestartAfterPrune', 'W_NoConcurrentDeath', 'W_NoTwoCallers', 'W_NoCreateDuringCall')] +
              [('prefix', open(os.path.join(tlc.SPEC, 'Registry_prefix.cfg')).read()),
               ('norereg', _cfg('Registry_mc.cfg', inv=['Inv_C19_Exact', 'Inv_C19_Autoclose'], FixRestart='FALSE')),
-              ('outsidelock', _cfg('Registry_mc.cfg', inv=['Inv_C19_Exact'], PruneOutsideLock='TRUE'))])
+              ('outsidelock', _cfg('Registry_mc.cfg', inv=['Inv_C19_Exact'], PruneOutsideLock='TRUE')),
+              ('weakreg', _cfg('Registry_mc.cfg', inv=['Inv_C19_Exact'], HeldSet='H_both', WeakRegistry='TRUE')),
+              ('mc-held', _cfg('Registry_mc.cfg', HeldSet='H_both', MaxSteps=5 if quick else 6)),
+              ('W_NoUnheldYielded', _cfg('Registry_mc.cfg', inv=['W_NoUnheldYielded'], HeldSet='H_both'))])
     r = tlc.run('RegistryMC', cfg_text=_cfg('Registry_mc.cfg', **({} if quick else {'MaxSteps': 7})), coverage=not quick, name='mc', timeout=3000)
     ev.add_tlc('exhaustive: 2 concurrent active_children() callers (lock / prune+copy / release / return) x create run|not-run x die x restart x autoclose, 3 workers', r)
     if r.error:
@@ -616,6 +670,20 @@ def run(prop, tier, replay=None):
     ev.add_tlc('liveness: every active_children() call returns', rl)
     if rl.error:
         raise MachineryError('Live_CallReturns fails in the model: %s' % rl.error)
+    rh = _sr('RegistryMC', cfg_text=_cfg('Registry_mc.cfg', HeldSet='H_both', MaxSteps=5 if quick else 6), name='mc-held', must_complete=True)
+    if not rh.completed and not rh.error:
+        raise MachineryError('TLC did not complete the handle-less configuration')
+    ev.add_tlc('exhaustive: the same with workers whose handle the caller drops right after construction (held = FALSE)', rh)
+    if rh.error:
+        raise MachineryError('Registry.tla (handle-less workers) violates its own properties: %s\n%s' % (rh.error, '\n'.join(rh.trace[:80])))
+    rk = _sr('RegistryMC', cfg_text=_cfg('Registry_mc.cfg', inv=['Inv_C19_Exact'], HeldSet='H_both', WeakRegistry='TRUE'), name='weakreg', must_complete=False)
+    if rk.error != 'invariant:Inv_C19_Exact':
+        raise MachineryError('a registry of weak references (a handle-less live worker vanishes) is not rejected by the model checker: %s' % rk.error)
+    wit['weak_registry_model'] = rk.error
+    rw = _sr('RegistryMC', cfg_text=_cfg('Registry_mc.cfg', inv=['W_NoUnheldYielded'], HeldSet='H_both'), name='W_NoUnheldYielded', must_complete=False)
+    if rw.error != 'invariant:W_NoUnheldYielded':
+        raise MachineryError('witness W_NoUnheldYielded not reachable (vacuous model): %s' % rw.error)
+    wit['W_NoUnheldYielded'] = 'reached'
     for w in ('W_NoPrune', 'W_NoRestartAfterPrune', 'W_NoConcurrentDeath', 'W_NoTwoCallers', 'W_NoCreateDuringCall'):
         rw = _sr('RegistryMC', cfg_text=_cfg('Registry_mc.cfg', inv=[w]), name=w, must_complete=False)
         if rw.error != 'invariant:' + w:
@@ -643,7 +711,7 @@ def run(prop, tier, replay=None):
         raise MachineryError('path dump failed: ' + rpaths.error)
     paths = [(_tla_seq(hs), _tla_seq(ys), rl_) for hs, ys, rl_ in rpaths.tags.get('PATH', [])]
     n_exh = len(paths)
-    cap = 3000 if quick else 40000
+    cap = 2500 if quick else 40000
     sel = paths if len(paths) <= cap else rng.sample(paths, cap)
     jobs, expect = [], {}
 
@@ -663,6 +731,17 @@ def run(prop, tier, replay=None):
     interesting = [p for p in paths if any(s[0] == 'restart' for s in p[0]) or any(s[0] == 'auto' for s in p[0])]
     for h, ys, rl_ in rng.sample(interesting, min(len(interesting), 150 if quick else 1200)):
         add(h, ys, rl_, True)
+    # fire-and-forget workers whose liveness does not hang on a thread of this process: process kind, forced
+    unheld_paths = [p for p in paths if any(s[0] == 'create' and s[3] == 'once-unheld' for s in p[0])]
+    nfree = 0
+    for h, ys, rl_ in rng.sample(unheld_paths, min(len(unheld_paths), 24 if quick else 400)):
+        add(h, ys, rl_, False)
+        for st in h:
+            if st[0] == 'create' and st[3] == 'once-unheld':
+                jobs[-1]['kinds'][str(st[1])] = 'process' if nfree % 4 else 'remote'
+        jobs[-1]['modes'] = {}
+        nfree += 1
+    ev.cov['handle_less_process_or_remote_replays'] = nfree
     nlong = 14 if quick else 56
     for k in range(nlong):
         jobs.append(long_history(rng, 'L%d' % k, 120 if quick else 400, heavy=(k % 7 == 0)))
